@@ -17,6 +17,7 @@ from typing_extensions import Literal
 from spil.sid.sid import Sid
 from spil.sid.read.util import first
 from spil.sid.read.tools import unfold_search
+from spil.sid.read.unfolders.extensions import extensions
 
 
 class Finder:
@@ -77,9 +78,9 @@ class Finder:
         Returns:
             Generator over Sids or strings
         """
-        # shortcut if Sid is not a search
+        # shortcut if Sid is not a search (an extension alias still needs unfolding)
         sid = Sid(search_sid)
-        if sid and not sid.is_search():
+        if sid and not sid.is_search() and extensions(str(sid)) == str(sid):
             generator = self.do_find([sid], as_sid=as_sid)
         else:
             search_sids = unfold_search(search_sid)
